@@ -112,3 +112,43 @@ Theorem meta_reader_closed_means_closed :
 Proof. exact meta_reader_sticky_closed. Qed.
 Print Assumptions meta_reader_closed_means_closed.
 End MetaReaderImplE.
+
+(* bzip2.Reader LIFECYCLE at implementation level (Bzip2/ImplLife.v: Close, the latch, Reset; histories of
+   Read/Close/Reset over scripted sources compared PER CALL with the real Reader: WBZLIFE) *)
+From V Require Import Base.Prelude Prefix.ReaderImpl Prefix.DecTable.
+From V Require Bzip2.Impl Bzip2.ImplLife Bzip2.ImplLifeLatch Bzip2.ImplLifeSim Bzip2.ImplLifeInv Bzip2.ImplLifeThms.
+Module BzLife.
+Import Bzip2.Impl Bzip2.ImplLife Bzip2.ImplLifeLatch Bzip2.ImplLifeSim Bzip2.ImplLifeInv Bzip2.ImplLifeThms.
+(* ---- C18 *)
+Theorem bzip2_reader_close_frame : forall st,
+  let st1 := snd (bz_close st) in
+  z_rd st1 = z_rd st /\ z_inOff st1 = z_inOff st /\ z_outOff st1 = z_outOff st /\
+  z_level st1 = z_level st /\ z_hdrftr st1 = z_hdrftr st /\ z_blkCRC st1 = z_blkCRC st /\
+  z_endCRC st1 = z_endCRC st /\ z_crc st1 = z_crc st /\ z_trees st1 = z_trees st /\
+  (z_err st = None -> bz_close st = (None, st)) /\
+  (forall e, z_err st = Some e -> is_done e = false -> bz_close st = (Some e, st)) /\
+  (forall e, z_err st = Some e -> is_done e = true ->
+     bz_close st = (None, Bzip2.Impl.set_err (set_rle st (rle_init [])) (Some EClosed))).
+Proof. exact bz_close_frame. Qed.
+Print Assumptions bzip2_reader_close_frame.
+
+Theorem bzip2_reader_closed_is_inert : forall st e,
+  z_err st = Some e -> (is_done e = true \/ stuck (z_rle st)) ->
+  let st1 := snd (bz_close st) in
+  let e' := Bzip2.ImplLifeLatch.closed_class e in
+  fst (bz_close st) = Bzip2.ImplLifeLatch.close_ret e /\ latched st1 e' /\
+  (z_rd st1 = z_rd st /\ z_inOff st1 = z_inOff st /\ z_outOff st1 = z_outOff st) /\
+  forall ops, Forall Bzip2.ImplLifeThms.no_reset ops ->
+    bz_ops st1 ops =
+    (map (fun o => match o with
+                   | BRead _ => bzlobs_of BkRead [] (Some e') st1
+                   | _ => bzlobs_of BkClose [] (Bzip2.ImplLifeLatch.close_ret e') st1
+                   end) ops, st1).
+Proof. exact bz_closed_inert. Qed.
+Print Assumptions bzip2_reader_closed_is_inert.
+
+Theorem bzip2_reader_close_midstream_closes_nothing : ~ bz_close_closes_statement.
+Proof. exact bz_close_closes_refuted. Qed.
+Print Assumptions bzip2_reader_close_midstream_closes_nothing.
+
+End BzLife.
